@@ -499,6 +499,50 @@ fn cmd_session(budget: u64, lines: &[String]) -> String {
     )
 }
 
+/// a retained session, line by line, with the BYTES the retained compiler produced for each line (for the verified checker):
+/// per line `ok|err.. [| output] ## x<bytes> | <constants>` (no `##` part when the line did not compile)
+fn cmd_sessionbytes(budget: u64, lines: &[String]) -> String {
+    verif::heap_reset();
+    let mut compiler = Compiler::new();
+    let mut vm = VM::new();
+    let mut outs: Vec<String> = Vec::new();
+    for src in lines {
+        verif::capture_start();
+        verif::set_budget(Some(budget));
+        let mut bytes = String::new();
+        let r = (|| {
+            let ast = parse(src)?;
+            let code = compiler.compile_ast(&ast)?;
+            let consts: Vec<String> = code.constants.iter().map(|c| const_canon(*c)).collect();
+            bytes = format!(" ## {} | {}", hex(&code.instructions), consts.join(" "));
+            vm.run(code)
+        })();
+        verif::set_budget(None);
+        let output = verif::capture_take();
+        let mut line = match &r {
+            Ok(obj) => {
+                let mut s = String::from("ok ");
+                let mut path = Vec::new();
+                canon(*obj, &mut path, &mut s);
+                s
+            }
+            Err(e) => err_kind(e),
+        };
+        if !line.starts_with("BUDGET") && !line.starts_with("FAULT") {
+            line.push_str(" | ");
+            line.push_str(&hex(output.as_bytes()));
+        }
+        if let Ok(obj) = r {
+            free_graph(obj);
+        }
+        line.push_str(&bytes);
+        outs.push(line);
+    }
+    drop(vm);
+    drop(compiler);
+    outs.join(" ;; ")
+}
+
 /// evaluate the batch concurrently: `n` threads, each repeatedly takes the next program of its own
 /// seeded order; every program is evaluated by several threads and all answers for one program
 /// must be identical (returned once; `DIVERGED` otherwise)
@@ -590,6 +634,20 @@ fn handle(line: &str) -> String {
                 }
             }
             cmd_session(b, &lines)
+        }
+        ["sessionbytes", b, rest @ ..] => {
+            let b = match b.parse::<u64>() {
+                Ok(b) => b,
+                Err(_) => return "bad-request".into(),
+            };
+            let mut lines = Vec::new();
+            for h in rest.iter() {
+                match unhex(h) {
+                    Some(t) => lines.push(t),
+                    None => return "bad-hex".into(),
+                }
+            }
+            cmd_sessionbytes(b, &lines)
         }
         ["threads", n, seed, b, rest @ ..] => {
             let (n, seed, b) = match (n.parse::<usize>(), seed.parse::<u64>(), b.parse::<u64>()) {
